@@ -43,3 +43,37 @@ package writer
 //@   ensures [update-action] implies(!uf("hasTopObject", bool, rawJson, INDEX_TOP_STR) && !uf("hasTopObject", bool, rawJson, CREATE_TOP_STR) && uf("hasTopObject", bool, rawJson, UPDATE_TOP_STR), result0 == UPDATE)
 //@   ensures [anything-else-is-rejected] implies(!uf("hasTopObject", bool, rawJson, INDEX_TOP_STR) && !uf("hasTopObject", bool, rawJson, CREATE_TOP_STR) && !uf("hasTopObject", bool, rawJson, UPDATE_TOP_STR), result0 == DELETE)
 //@ end
+
+// C15 (an item reported as created is stored) and C16 (an event keeps the time
+// it carried): ProcessIndexRequestPle stores one batch of parsed events.
+//  - HandleBulkBody tags every event with the index name of its action line
+//    and calls this function with that same name, so the batch is rejected as
+//    "index mismatch" only for an event tagged with a DIFFERENT name than the
+//    one the caller passed (not the alias-resolved name: events addressed to
+//    an alias carry the alias).
+//  - the event time is read from the protocol's own field: span indexes
+//    (jaeger-*) carry it in startTimeMillis.  The field is chosen from the
+//    resolved index name BEFORE any event time is read (ghost pleSpan: -1 not
+//    decided yet, 1 span index, 0 other), and the arrival time is used only
+//    when the event carries no time.
+//@ ghostdecl pleSpan int
+//@ func ProcessIndexRequestPle
+//@   props C15 C16
+//@   mode int
+//@   assumecalleerequires
+//@   ghostinit ghost(0, "pleSpan") == -1
+//@   site call utils.TeeErrorf #1:
+//@     assert [batch-rejected-only-for-an-event-tagged-with-another-name] ple.indexName != indexNameIn
+//@   site callret strings.HasPrefix #1:
+//@     assert [span-index-decided-from-the-resolved-name] arg0 == indexNameConverted && arg1 == "jaeger-"
+//@     ghostset ghost(0, "pleSpan") = ite(result, 1, 0)
+//@   loop 2:
+//@     invariant [time-field-stays-chosen] ghost(0, "pleSpan") != -1 && implies(ghost(0, "pleSpan") == 1, tsKey == "startTimeMillis")
+//@   site call utils.ExtractTimeStamp #1:
+//@     assert [time-field-chosen-before-times-are-read] ghost(0, "pleSpan") != -1
+//@     assert [span-time-read-from-startTimeMillis] implies(ghost(0, "pleSpan") == 1, *arg1 == "startTimeMillis")
+//@   site call ple.SetTimestamp #2:
+//@     assert [arrival-time-only-for-an-event-without-time] ple.timestampMillis == 0 && arg1 == tsNow
+//@   site call writer.AddEntryToInMemBuf #1:
+//@     assert [stored-under-the-resolved-index] arg1 == indexNameConverted && arg3 == docType && samebase(arg8, pleArray) && len(arg8) == len(pleArray)
+//@ end
